@@ -16,7 +16,7 @@ Conts == {<<MkShape(<<2>>, <<K2[2]>>, dim, r1, Seed), MkShape(<<2>>, <<K2[2]>>, 
 Init == c \in {<<s>> : s \in Singles} \cup Conts /\ out = [op |-> "init"]
 
 Dim == LET s == c[1] IN CDim(s) - (IF s.rat THEN 1 ELSE 0)
-Vecs == {[k \in 1..Dim |-> RI(k - 2)], [k \in 1..Dim |-> R(2 * k - 1, 2)]}
+Vecs == {[k \in 1..Dim |-> RI(k - 2)], [k \in 1..Dim |-> R(2 * k - 1, 2)], [k \in 1..Dim |-> Zero]}
 Factors == {R(-3, 2), Half, RI(2)}
 \* <<cos, sin, degrees * 10^4>> : 90, 180, 270 degrees and the 3-4-5 angle (53.1301023541559835... degrees)
 Angles == {<<Zero, One, <<90, 1>>>>, <<RI(-1), Zero, <<180, 1>>>>, <<Zero, RI(-1), <<270, 1>>>>, <<R(3,5), R(4,5), <<0, 0>>>>}
